@@ -221,7 +221,32 @@ fn run(ctx: &mut Ctx) {
     if ctx.shard == 2 % ctx.nshards {
         builtin_echo_unwritable(ctx);
     }
+    if ctx.shard == 3 % ctx.nshards {
+        many_invocations_small_stack(ctx);
+    }
     let _ = std::fs::remove_file(&file);
+}
+
+/// 2500 invocations of a real child under a 256 KiB stack: what xargs keeps per invocation must not pile
+/// up — the run ends with 0 (every child succeeded) or 123 (the 1700th exited 1), not with a crash.
+fn many_invocations_small_stack(ctx: &mut Ctx) {
+    use std::ffi::OsStr;
+    let sbx = ctx.sbx.clone();
+    let input: Vec<u8> = (0..2500).flat_map(|i| format!("{i}\n").into_bytes()).collect();
+    for (cmd, want) in [(vec!["-n1", "/bin/true"], 0), (vec!["-n1", "/usr/bin/test", "1700", "-ne"], 123), (vec!["-L1", "-I@", "/usr/bin/test", "@", "-ne", "1700"], 123)] {
+        let args: Vec<&OsStr> = cmd.iter().map(OsStr::new).collect();
+        let o = crate::binrun::run(&crate::binrun::repo_bin("xargs"), &args, &sbx, &crate::binrun::Opts { stack: Some(256 << 10), stdin: Some(input.clone()), timeout_s: 120, ..Default::default() });
+        ctx.rep.evaluations += 1;
+        ctx.rep.nontrivial += 1;
+        ctx.rep.count("many_invocations_small_stack", 1);
+        if o.code != Some(want) {
+            ctx.rep.violation(
+                "C19 2500 invocations under a 256 KiB stack: xargs does not end with the status of its children",
+                format!("seq 0 2499 | xargs {:?}: status {:?} signal {:?} (expected {want}); stderr {:?}", cmd, o.code, o.signal, String::from_utf8_lossy(&o.err).lines().take(2).collect::<Vec<_>>()),
+                json!({"prop":"C19","own":"many invocations"}),
+            );
+        }
+    }
 }
 
 fn own_errors(ctx: &mut Ctx) {
